@@ -243,6 +243,14 @@ def mutation_guards(cx):
                 en = strip_casts(dict(x[2])["end"])
         ok = en is not None and en[0] == "bin" and en[1] == "Sub" and en[2][0] == "param" and is_f(en[3], "Entry.index")
         cx.check(ok, cx.site_key(c, "compact:to"), "compact drains ..(compact_index - first entry index) (found %s)" % (show(en) if en else None), c)
+    # set_hardstate(hs) stores hs -- all of it, always (a hard state that differs only in the vote is still a promise)
+    sh = cx.fn("MemStorageCore::set_hardstate")
+    gsh = cx.pg(sh)
+    hws = [s for s, fk, pl in cx.prog.direct_writes(sh.key) if fk == "RaftState.hard_state" and "stmt" in s.data]
+    okh = len(hws) == 1 and cx.prog.A(sh).expr_rvalue(hws[0].data["stmt"]["rv"], hws[0].at)[0] == "param"
+    retsb = [bi for bi in sorted(cx.prog.A(sh).reach) if sh.body.blocks[bi]["term"]["k"] == "return"]
+    okh = okh and all(rb == hws[0].block or gsh.dominated_by_block((rb, "term"), lambda b: b == hws[0].block) for rb in retsb)
+    cx.check(okh, "set_hardstate", "set_hardstate(hs) stores the whole hard state on every path (no 'unchanged' shortcut that could drop a vote)")
     asf = cx.fn("MemStorageCore::apply_snapshot")
     clears = [c for c in cx.prog.all_calls if c.fn is asf and c.data["callee"].endswith("Vec::clear")]
     ws = {s.data["field"] for s in cx.prog.direct_writes(asf.key) for s in [s[0]]}
